@@ -12,6 +12,7 @@ use ip::{
 };
 use netconf::message::{rpc::operation::Datastore, ReadError, ReadXml};
 use quick_xml::{
+    escape::unescape,
     events::{BytesStart, Event},
     name::{Namespace, ResolveResult},
     NsReader,
@@ -131,6 +132,14 @@ where
     }
 }
 
+/// Read the text of a policy-statement `<name>` element, resolving XML character and entity
+/// references (the writer escapes the name again when it is sent back to the router).
+fn read_name(reader: &mut NsReader<&[u8]>, start: &BytesStart<'_>) -> Result<Name, ReadError> {
+    let text = reader.read_text(start.to_end().name())?;
+    let name = unescape(&text).map_err(quick_xml::Error::from)?;
+    Ok(Name::new(name))
+}
+
 impl ReadXml for Maybe<Candidate> {
     #[tracing::instrument(skip_all, fields(tag = ?start.local_name()), level = "debug")]
     fn read_xml(reader: &mut NsReader<&[u8]>, start: &BytesStart<'_>) -> Result<Self, ReadError> {
@@ -184,7 +193,7 @@ impl ReadXml for Maybe<Candidate> {
                 (ResolveResult::Bound(XNM), Event::Start(tag))
                     if tag.local_name().as_ref() == b"name" && name.is_none() =>
                 {
-                    name = Some(reader.read_text(tag.to_end().name()).map(Name::new)?);
+                    name = Some(read_name(reader, &tag)?);
                 }
                 (ResolveResult::Bound(XNM), Event::Start(tag))
                     if tag.local_name().as_ref() == b"then" && !reject_policy =>
@@ -243,7 +252,7 @@ impl ReadXml for Maybe<Installed> {
                     if tag.local_name().as_ref() == b"name" && name.is_none() =>
                 {
                     tracing::debug!(?tag);
-                    name = Some(reader.read_text(tag.to_end().name()).map(Name::new)?);
+                    name = Some(read_name(reader, &tag)?);
                     tracing::debug!(?name);
                 }
                 (ResolveResult::Bound(XNM), Event::Start(tag))
